@@ -2,20 +2,8 @@
   Properties/C06.lean — the success flag of the algebraic solvers is truthful.
 -/
 import SolverzModel.Core.Ctl.Newton
+import SolverzModel.Proofs.Newton
 namespace Solverz
-
-/-- invariant of the Newton loop: the cached residual is the residual of the current iterate -/
-theorem nrLoop_df {S α} (O : Ord α) (res : S → Option α) (step : S → S) (tol : α) (maxIt fuel : Nat)
-    (s : NrState S α) (h : s.df = res s.y) : (nrLoop O res step tol maxIt fuel s).df = res (nrLoop O res step tol maxIt fuel s).y := by
-  induction fuel generalizing s with
-  | zero => simpa [nrLoop] using h
-  | succ n ih =>
-    unfold nrLoop
-    split
-    · split
-      · exact h
-      · exact ih _ rfl
-    · exact h
 
 /-- **Newton–Raphson**: for every residual function (NaN included), every step function, every
 tolerance and iteration limit and every start, the flag is true exactly when the residual *at the
@@ -23,7 +11,7 @@ returned point* is below the tolerance. -/
 theorem C06_nr {S α} (O : Ord α) (res : S → Option α) (step : S → S) (tol : α) (maxIt : Nat) (y0 : S) :
     (nr O res step tol maxIt y0).2.succeed = ltTol O (res (nr O res step tol maxIt y0).1) tol := by
   simp only [nr]
-  rw [nrLoop_df O res step tol maxIt (maxIt + 2) _ rfl]
+  rw [nrLoop_df_eq O res step tol maxIt (maxIt + 2) _ rfl]
 
 /-- the loop never runs out of fuel: `maxIt + 2` rounds suffice (the counter is checked before
 each Newton step), so the model's bounded recursion is the code's `while` loop -/
